@@ -5,7 +5,7 @@ import sys
 
 import vt.boot  # noqa: F401
 
-from vt import core, gen, impl, tsuite, wire
+from vt import comp, core, gen, impl, tsuite, wire
 
 DOOR_T, BOX_T, KEY_T = gen.TY['Door'], gen.TY['Box'], gen.TY['Key']
 OPEN, CLOSED, LOCKED = 0, 1, 2
@@ -104,11 +104,43 @@ def cases(ctx):
     yield from tsuite.wrap_cases(ctx, n, focus=[4, 5])
 
 
+def two_episodes(ctx):
+    """doors and boxes respond ONLY to a faced ACTUATE -- also across episodes: two initial states produced by separate calls of a reset
+    function are separate worlds; opening the door of one (honestly: key in hand, facing it, ACTUATE, applied in place with the registered
+    transition function) leaves the door of the other exactly as it was"""
+    import numpy as np
+    from gym_gridverse.action import Action
+    from gym_gridverse.envs import transition_functions as tf
+    from gym_gridverse.geometry import Orientation, Position
+    from gym_gridverse.grid_object import Door, Key
+    r = ctx.rng
+    for k in range(6 if ctx.tier == 'quick' else 60):
+        d = {'name': 'keydoor', 'shape': (r.randint(4, 7), r.randint(5, 8))}
+        f = comp.build_reset(d)
+        a, b = f(rng=np.random.default_rng(r.randrange(1 << 30))), f(rng=np.random.default_rng(r.randrange(1 << 30)))
+        before_b = wire.cstate(b)
+        doors = [(y, x) for y, row in enumerate(a.grid.objects) for x, o in enumerate(row) if isinstance(o, Door)]
+        ctx.case(('two-episodes', d['shape'], k), True, None)
+        ctx.count('two episodes', 'keydoor')
+        if not doors:
+            continue
+        (y, x) = doors[0]
+        door = a.grid[y, x]
+        a.agent.position, a.agent.orientation, a.agent.grid_object = Position(y, x - 1), Orientation.R, Key(door.color)
+        tf.transition_function_registry['actuate_door'](a, Action.ACTUATE, rng=np.random.default_rng(0))
+        if a.grid[y, x].is_open is not True:
+            ctx.violation('a locked door, faced with the matching key in hand, did not open on ACTUATE', {'reset': d, 'state': gen.show_state(wire.cstate(a))})
+        if wire.cstate(b) != before_b:
+            ctx.violation('opening the door of one initial state changed ANOTHER initial state produced by a separate reset call (it was never actuated there)',
+                          {'reset': d, 'other_before': gen.show_state(before_b), 'other_after': gen.show_state(wire.cstate(b))})
+
+
 def run(ctx):
     ctx.rule = ('corpus; full door table 3 statuses x 5 colours x 9 held items x 4 headings x 8 actions; box table; random door/key/box '
                 'states through every function and compositions; non-trivial = the step changed the state or raised')
     tsuite.run_cases(ctx, cases(ctx), oracle)
     tsuite.run_histories(ctx, 150 if ctx.tier == 'quick' else 1500, oracle)
+    two_episodes(ctx)
 
 
 def replay(ctx, case):
